@@ -531,16 +531,22 @@ let handle (x : sexp) : (string * string) list =
       | _ -> [] in
     let e2e_agree = List.for_all (fun r -> json_ueq r.u_gw r.u_mono && (r.u_gwerr > 0) = (r.u_monoerr > 0)) runs in
     let pair_tail = Printf.sprintf "(e2e %s %d)" (if e2e_agree then "agree" else "DISAGREE") (List.length runs) in
-    if Sys.getenv_opt "C01P_V3" = Some "1" then begin
+    (* ---- plan TREES (theorem tv3_sound): tried first; the depth-1 form (theorem tv2_sound) is the fallback ---- *)
+    let v3_why = ref "" in
+    let v3 : (string * string) list option =
       try
         let t = translate3 super subs op vars fetches in
         let sz = int_of_nat (doc_size op) in
+        let kq = nat_of_int (sz + 8) in
+        let kdepth = nat_of_int (2 * t.t3_depth + 6) in
         let out = ref [] in
         let add st d = out := (st, d) :: !out in
         let sub_name i = match List.nth_opt subs (int_of_nat i) with Some (n, _) -> n | None -> "?" in
+        (* the client operation, verbatim *)
         let cd = client_doc3 t.t3_vds [] t.t3_ds in
         let op_anon = List.map (function DOp o -> DOp { o with op_name = None } | d -> d) op in
-        if cd <> op_anon then add "mismatch" ("corr:C01p/client_doc3 (pair " ^ ids ^ ")");
+        if cd <> op_anon then add "mismatch" ("corr:C01p/client_doc (pair " ^ ids ^ ") the translated plan tree does not reproduce the planner's operation");
+        (* the model's requests are the real plan's fetches *)
         let mreqs = model_requests3 t.t3_vds [] t.t3_tn t.t3_ds in
         let real_doc f = match f.f_doc with Some d -> canon_doc d | None -> "" in
         List.iter (fun mr ->
@@ -548,32 +554,127 @@ let handle (x : sexp) : (string * string) list =
             | MRoot3 (g, doc) ->
               (match List.filter (fun f -> f.f_sub = sub_name g) t.t3_roots with
                | [f] -> if canon_doc doc <> real_doc f then
-                   add "mismatch" (Printf.sprintf "corr:C01p/plan_form3 (pair %s) root request to %s: model %s real %s" ids (sub_name g) (quote_string (canon_doc doc)) (quote_string (real_doc f)))
-               | _ -> add "mismatch" (Printf.sprintf "corr:C01p/plan_form3 (pair %s) no single real root fetch on %s" ids (sub_name g)))
-            | MEntity3 (path, si, doc, _rf) ->
+                   add "mismatch" (Printf.sprintf "corr:C01p/plan_form (pair %s) root request to %s: model %s real %s" ids (sub_name g) (quote_string (canon_doc doc)) (quote_string (real_doc f)))
+               | _ -> add "mismatch" (Printf.sprintf "corr:C01p/plan_form (pair %s) no single real root fetch on %s" ids (sub_name g)))
+            | MEntity3 (path, si, doc, rf) ->
               let p = List.map sb path in
-              if not (List.exists (fun f -> path_of f = p && f.f_sub = sub_name si && canon_doc doc = real_doc f) t.t3_others) then
-                add "mismatch" (Printf.sprintf "corr:C01p/plan_form3 (pair %s) entity request at %s to %s: model %s has no real counterpart; real at that path: %s" ids
-                                  (String.concat "." p) (sub_name si) (quote_string (canon_doc doc))
-                                  (String.concat " | " (List.map (fun f -> f.f_sub ^ ":" ^ real_doc f) (List.filter (fun f -> path_of f = p) t.t3_others))))) mreqs;
-        let n_ment = List.length (List.filter (function MEntity3 _ -> true | _ -> false) mreqs) in
-        if n_ment <> List.length t.t3_others then add "mismatch" (Printf.sprintf "corr:C01p/plan_form3 (pair %s) %d model entity fetches, %d real" ids n_ment (List.length t.t3_others));
+              (match List.filter (fun f -> path_of f = p && f.f_sub = sub_name si && canon_doc doc = real_doc f) t.t3_others with
+               | [] ->
+                 add "mismatch" (Printf.sprintf "corr:C01p/plan_form (pair %s) entity request at %s to %s: model %s has no real counterpart; real at that path: %s" ids
+                                   (String.concat "." p) (sub_name si) (quote_string (canon_doc doc))
+                                   (String.concat " | " (List.map (fun f -> f.f_sub ^ ":" ^ real_doc f) (List.filter (fun f -> path_of f = p) t.t3_others))))
+               | f :: _ ->
+                 (* the representation template names the model's representation fields *)
+                 let tfields = (match f.f_doc with Some d -> (try repr_fields f (fst (entity_doc_parts d)) with _ -> []) | None -> []) in
+                 if List.sort compare tfields <> List.sort compare (List.map sb rf) then
+                   add "mismatch" (Printf.sprintf "corr:C01p/plan_form (pair %s) representation fields at %s: model [%s] real [%s]" ids
+                                     (String.concat "." p) (String.concat " " (List.map sb rf)) (String.concat " " tfields)))) mreqs;
+        let n_mroot = List.length (List.filter (function MRoot3 _ -> true | _ -> false) mreqs) in
+        let n_ment = List.length mreqs - n_mroot in
+        if n_mroot <> List.length t.t3_roots then add "mismatch" (Printf.sprintf "corr:C01p/plan_form (pair %s) %d model root fetches, %d real" ids n_mroot (List.length t.t3_roots));
+        if n_ment <> List.length t.t3_others then add "mismatch" (Printf.sprintf "corr:C01p/plan_form (pair %s) %d model entity fetches, %d real" ids n_ment (List.length t.t3_others));
+        (* the validator *)
+        let accepted = tv3_static_b super subsl [] t.t3_vds t.t3_sup kq decls rdecls kdepth t.t3_ds in
+        if not accepted then raise Exit;
+        let in_contract = ref 0 in
         List.iter (fun r ->
-            match find_entity r.u_uni super.s_query [] with
-            | None -> ()
-            | Some eQ ->
-              let fu = nat_of_int (8 * sz + 100) in
-              let (o, errs) = gateway3 r.u_uni super subsl [] t.t3_vds t.t3_sup eQ fu fu t.t3_tn (nat_of_int (2 * sz + 10)) t.t3_ds in
-              let mj = match o with Some l -> JObj l | None -> JNull in
-              if not (json_eqb mj r.u_gw) || (errs <> []) <> (r.u_gwerr > 0) then
-                add "mismatch" (Printf.sprintf "corr:C01p/gateway3 (pair %s) (uni %d) model %s errs %d gateway %s errs %d" ids r.u_idx
-                                  (sexp_of_json mj) (List.length errs) (sexp_of_json r.u_gw) r.u_gwerr)) runs;
-        add "ok" (Printf.sprintf "nt (pair %s (inside3) (depth %d) (fetches %d) %s)" ids t.t3_depth (List.length t.t3_others) pair_tail);
-        List.rev !out
+            let contract = univ3_contract_b super subsl decls rdecls r.u_uni in
+            if contract then incr in_contract
+            else if Sys.getenv_opt "C01P_DEBUG" = Some "1" then
+              begin
+                List.iter (fun e ->
+                    match find_type_s super (sb e.en_type) with
+                    | Some td -> List.iter (fun fd ->
+                        let isl = (match fd.fd_type with TList _ | TNonNull (TList _) -> true | _ -> false) in
+                        if isl then
+                          prerr_endline ("listval " ^ (match List.assoc_opt fd.fd_name e.en_fields with
+                              | Some (FLst _) -> "FLst" | Some FNullRef -> "FNullRef" | Some (FSc JNull) -> "FSc-null" | Some (FSc (JArr _)) -> "FSc-arr"
+                              | Some (FSc _) -> "FSc-other" | Some FErr -> "FErr" | Some FEcho -> "FEcho" | Some (FRef _) -> "FRef" | Some (FLookup _) -> "FLookup"
+                              | Some (FReq _) -> "FReq" | None -> "absent"))) td.td_fields
+                    | None -> ()) r.u_uni
+              end;
+            (* every request the engine sent is one of the model's requests (the engine batches the per-object entity
+               requests of one fetch and sends identical requests once) *)
+            List.iter (fun q ->
+                let qd = match q.r_doc with Some d -> canon_doc d | None -> "" in
+                if not (List.exists (fun mr -> match mr with
+                    | MRoot3 (g, doc) -> q.r_sub = sub_name g && canon_doc doc = qd
+                    | MEntity3 (_, si, doc, rf) ->
+                      q.r_sub = sub_name si && canon_doc doc = qd &&
+                      (match q.r_vars with
+                       | JObj rm -> (match List.assoc_opt (bs "representations") rm with
+                           | Some (JArr reps) -> List.for_all (function JObj m -> List.sort compare (List.map (fun (k, _) -> sb k) m) = List.sort compare (List.map sb rf) | _ -> false) reps
+                           | _ -> false)
+                       | _ -> false)) mreqs) then
+                  add "mismatch" (Printf.sprintf "corr:C01p/requests (pair %s) (uni %d) the engine's request to %s is none of the model's: %s" ids r.u_idx q.r_sub (quote_string qd))) r.u_reqs;
+            (* the extracted gateway model on this universe: the real gateway's response, member for member *)
+            (match find_entity r.u_uni super.s_query [] with
+             | None -> ()
+             | Some eQ ->
+               let fu = nat_of_int (int_of_nat (ds_need super t.t3_ds) + 1) in
+               let (o, errs) = gateway3 r.u_uni super subsl [] t.t3_vds t.t3_sup eQ fu fu t.t3_tn kdepth t.t3_ds in
+               let mj = match o with Some l -> JObj l | None -> JNull in
+               if not (json_eqb mj r.u_gw) || (errs <> []) <> (r.u_gwerr > 0) then
+                 add "mismatch" (Printf.sprintf "corr:C01p/gateway_model (pair %s) (uni %d) (contract %b) model %s errs %d gateway %s errs %d" ids r.u_idx contract
+                                   (sexp_of_json mj) (List.length errs) (sexp_of_json r.u_gw) r.u_gwerr));
+            if contract && not (json_ueq r.u_gw r.u_mono && (r.u_gwerr > 0) = (r.u_monoerr > 0)) then
+              add "mismatch" (Printf.sprintf "corr:C01p/accepted_but_differs (pair %s) (uni %d) gateway %s monolith %s" ids r.u_idx (sexp_of_json r.u_gw) (sexp_of_json r.u_mono))
+          ) runs;
+        (* self-test: defects planted into the accepted plan tree must be refused *)
+        let mut_total = ref 0 and mut_rejected = ref 0 in
+        let nsub = List.length subsl in
+        let try_mut ds' =
+          incr mut_total;
+          if not (tv3_static_b super subsl [] t.t3_vds t.t3_sup kq decls rdecls kdepth ds') then incr mut_rejected in
+        (* mutate the first position that has a fetch: wrong subgraph, representation without keys, a fetched field re-tagged *)
+        let rec mut_pt (f : ptree -> ptree option) (pt : ptree) : ptree option =
+          match f pt with
+          | Some pt' -> Some pt'
+          | None ->
+            let PT (items, fetches) = pt in
+            let rec go = function
+              | [] -> None
+              | (tg, PDown (a, n, args, sh, ty, sub)) :: r ->
+                (match mut_pt f sub with
+                 | Some sub' -> Some ((tg, PDown (a, n, args, sh, ty, sub')) :: r)
+                 | None -> (match go r with Some r' -> Some ((tg, PDown (a, n, args, sh, ty, sub)) :: r') | None -> None))
+              | x :: r -> (match go r with Some r' -> Some (x :: r') | None -> None) in
+            (match go items with Some items' -> Some (PT (items', fetches)) | None -> None) in
+        let mut_ds (f : ptree -> ptree option) : rfield3 list option =
+          let rec go = function
+            | [] -> None
+            | d :: r ->
+              (match d.r3_item with
+               | PDown (a, n, args, sh, ty, sub) ->
+                 (match mut_pt f sub with
+                  | Some sub' -> Some ({ d with r3_item = PDown (a, n, args, sh, ty, sub') } :: r)
+                  | None -> (match go r with Some r' -> Some (d :: r') | None -> None))
+               | _ -> (match go r with Some r' -> Some (d :: r') | None -> None)) in
+          go t.t3_ds in
+        if t.t3_others <> [] then begin
+          (match mut_ds (fun (PT (items, fetches)) -> match fetches with
+               | ((from, si), ks) :: r -> Some (PT (items, ((from, nat_of_int ((int_of_nat si + 1) mod nsub)), ks) :: r))
+               | [] -> None) with Some ds' -> try_mut ds' | None -> ());
+          (match mut_ds (fun (PT (items, fetches)) -> match fetches with
+               | ((from, si), _) :: r -> Some (PT (items, ((from, si), []) :: r))
+               | [] -> None) with Some ds' -> try_mut ds' | None -> ());
+          (match mut_ds (fun (PT (items, fetches)) ->
+               if fetches = [] || not (List.exists (fun (tg, _) -> int_of_nat tg = 1) items) then None
+               else (let flipped = ref false in
+                     Some (PT (List.map (fun (tg, it) -> if int_of_nat tg = 1 && not !flipped then (flipped := true; (nat_of_int 0, it)) else (tg, it)) items, fetches)))) with
+           | Some ds' -> try_mut ds' | None -> ())
+        end;
+        let nt = if t.t3_others <> [] then "nt" else "tr" in
+        add "ok" (Printf.sprintf "%s (pair %s (inside) (accepted true) (theorem tv3_sound) (depth %d) (tn %b) (roots %d) (entity_fetches %d) (contract %d %d) (mutants %d %d) %s)"
+                    nt ids t.t3_depth t.t3_tn (List.length t.t3_roots) (List.length t.t3_others) !in_contract (List.length runs) !mut_rejected !mut_total pair_tail);
+        Some (List.rev !out)
       with
-      | Outside feat -> [("ok", Printf.sprintf "tr (pair %s (outside %s) %s)" ids (quote_string feat) pair_tail)]
-      | Translate why -> [("mismatch", Printf.sprintf "corr:C01p/translate3 (pair %s) %s %s" ids (quote_string why) pair_tail)]
-    end else
+      | Outside f -> v3_why := "outside:" ^ f; None
+      | Translate w -> v3_why := "translate:" ^ w; None
+      | Exit -> v3_why := "rejected"; None in
+    match v3 with
+    | Some res -> res
+    | None ->
     (try
        let t = translate super subs op vars fetches in
        let sz = int_of_nat (doc_size op) in
@@ -704,7 +805,12 @@ let handle (x : sexp) : (string * string) list =
        else add "specfail" ("plan_ok/rejected-in-fragment " ^ summary);
        List.rev !out
      with
-     | Outside feat -> [("ok", Printf.sprintf "tr (pair %s (outside %s) %s)" ids (quote_string feat) pair_tail)]
+     | Outside feat ->
+       let f3 = !v3_why in
+       let feat' = if String.length f3 > 8 && String.sub f3 0 8 = "outside:" then String.sub f3 8 (String.length f3 - 8) else feat in
+       if f3 = "rejected" || (String.length f3 > 10 && String.sub f3 0 10 = "translate:") then
+         [("specfail", Printf.sprintf "plan_ok/rejected-in-fragment (pair %s (inside) (accepted false) %s (why %s))" ids pair_tail (quote_string ("plan tree: " ^ f3)))]
+       else [("ok", Printf.sprintf "tr (pair %s (outside %s) %s)" ids (quote_string feat') pair_tail)]
      | Translate why -> [("mismatch", Printf.sprintf "corr:C01p/translate (pair %s) %s %s" ids (quote_string why) pair_tail)]))
   | _ -> [("error", "unrecognised case line")]
 
